@@ -112,14 +112,26 @@ def cases(tier, seed):
         P, f, lam = geom.lattice(seed, ground=ground, special=special)
         pts = [list(map(float, p)) for p in P]
         for es in geom.edge_sets(5, D):
-            nseg = [geom.auto_nseg(np.linalg.norm(P[a] - P[b]), 0.02 * lam, nmin=4) for a, b in es]
-            for flip in (0, 1):
-                if flip and not ground:
-                    continue
-                st = [dict(a=(b if flip else a), b=(a if flip else b), n=nseg[i], r=(2e-4 if i % 2 == 0 else 5e-5) * lam) for i, (a, b) in enumerate(es)]
-                envs = ['free'] if not ground else (['ideal'] + (REAL_ENVS[:2] if tier == 'quick' else REAL_ENVS))
-                for env in envs:
-                    yield dict(kind='lat', env=env, f=f, lam=lam, pts=pts, st=st)
+            for resonant in (False, True):
+                Q, qpts = P, pts
+                if resonant:
+                    # the same structure scaled to its first resonance (total conductor length 0.48 lambda, 0.25 lambda
+                    # for a connected structure standing on the ground): real power dominates, the 1.5 % bound is sharp
+                    if len(es) > 2 or not geom.connected(es):
+                        continue
+                    total = sum(np.linalg.norm(P[a] - P[b]) for a, b in es)
+                    on_gnd = ground and any(abs(P[v][2]) < 1e-12 for e in es for v in e)
+                    g = (0.25 if on_gnd else 0.48) * lam / total
+                    Q = [p * g for p in P]
+                    qpts = [list(map(float, p)) for p in Q]
+                nseg = [geom.auto_nseg(np.linalg.norm(Q[a] - Q[b]), 0.02 * lam, nmin=4) for a, b in es]
+                for flip in (0, 1):
+                    if flip and not ground:
+                        continue
+                    st = [dict(a=(b if flip else a), b=(a if flip else b), n=nseg[i], r=(2e-4 if i % 2 == 0 else 5e-5) * lam) for i, (a, b) in enumerate(es)]
+                    envs = ['free'] if not ground else (['ideal'] + (REAL_ENVS[:2] if tier == 'quick' else REAL_ENVS))
+                    for env in envs:
+                        yield dict(kind='lat', env=env, f=f, lam=lam, pts=qpts, st=st, resonant=resonant)
     # fixed (seed independent) known-finding inputs
     lam = 10.0
     f = geom.C_MININEC / lam
